@@ -339,7 +339,7 @@ def uEscape (n : Nat) : List Char :=
 /-- Go's `encoding/json` string escaping as used by `json.Marshal` (HTML escaping on), per code
     point (Go 1.22+: `\b` and `\f` have short forms). -/
 def jsonEscapeChar (c : Char) : List Char :=
-  if c.toNat = 34 then ['\\', '"']                       -- "
+  if c.toNat = 34 then ['\\', '\x22']                       -- "
   else if c.toNat = 92 then ['\\', '\\']                  -- \
   else if c.toNat = 10 then ['\\', 'n']
   else if c.toNat = 13 then ['\\', 'r']
@@ -354,7 +354,7 @@ def jsonEscapeChar (c : Char) : List Char :=
 def jsonEscape (cs : List Char) : List Char := cs.flatMap jsonEscapeChar
 
 def jsonString (s : String) : String :=
-  String.ofList ('"' :: jsonEscape s.toList ++ ['"'])
+  String.ofList ('\x22' :: jsonEscape s.toList ++ ['\x22'])
 
 /-- `marshalValue(t.Type, v)` for `*NonNullType` recurses with the same value. -/
 def stripNonNull : TRef → TRef
